@@ -113,6 +113,21 @@ pub fn map_snap(db: &FixtureDatabase, root: &Path) -> MapSnap {
 }
 
 impl MapSnap {
+    /// drop the plugin / third-party flags of definitions (for comparisons with indices built without a venv scan)
+    pub fn without_origin_flags(&self) -> MapSnap {
+        let strip = |l: &String| -> String {
+            let mut t = l.clone();
+            for f in [" tp=true", " tp=false", " plug=true", " plug=false"] {
+                t = t.replace(f, "");
+            }
+            t
+        };
+        let mut m = self.clone();
+        m.definitions = m.definitions.iter().map(strip).collect();
+        m.definitions.sort();
+        m
+    }
+
     /// first differing component, for reports
     pub fn diff(&self, other: &MapSnap, with_undeclared: bool) -> Option<String> {
         let pairs: [(&str, &Vec<String>, &Vec<String>); 6] = [
